@@ -103,7 +103,7 @@ def run(tier, seed, only=None):
                    'sqlite3 (validation of the reference LIKE matcher, end-to-end tie)']
     ch.run_harnesses(rep, specs, classify)
     if not only or only == 'tie':
-        for f in (tie_matcher_vs_sqlite, tie_sqlite_end_to_end, tie_monads_vs_real_query, tie_other_literals):
+        for f in (tie_matcher_vs_sqlite, tie_sqlite_end_to_end, tie_monads_vs_real_query, tie_param_paths, tie_other_literals):
             t0 = time.time()
             try:
                 f(rep, tier)
@@ -174,7 +174,10 @@ def tie_sqlite_end_to_end(rep, tier):
                     if op == '==' and x == '': continue       # `t.s == ''` is translated specially (Oracle compatibility), not a literal question
                     operand = repr(x) if kind == 'const' else 'x' if kind == 'param' else 't.x'
                     q = 'select((t.s, t.x) for t in T if %s)' % (src[op] % operand)
-                    got = sorted(set(core.select(q[7:-1], {'T': T}, {'x': x})[:]))
+                    try:
+                        got = sorted(set(core.select(q[7:-1], {'T': T}, {'x': x})[:]))
+                    except Exception as e:      # the statement did not even run: the value changed its structure
+                        got = 'raised %s: %s' % (type(e).__name__, e)
                     want = sorted(set((s, xx) for (s, xx) in rows if pyops[op](s, xx if kind == 'col' else x)))
                     n += 1
                     if got != want:
@@ -240,6 +243,50 @@ def tie_monads_vs_real_query(rep, tier):
     else:
         rep.add(Ob('tie:monad-level statement == WHERE clause of the real query', 'concrete-tie', INCONCLUSIVE,
                    detail='harness and public API disagree: %r' % (bad[0],)))
+
+
+def tie_param_paths(rep, tier):
+    """Concrete tie for the two Param.eval paths the symbolic harnesses reach only in part: items of a tuple variable (index i)
+    and the columns of an entity instance with a composite primary key (index j), through real queries on real SQLite;
+    the arguments recorded at cursor.execute must be the values in placeholder order and the rows must be Python's answer."""
+    from pony.orm import Database, Required, Optional, Set, PrimaryKey, db_session, select
+    db = Database('sqlite', ':memory:')
+
+    class P(db.Entity):
+        a = Required(int)
+        b = Required(int)
+        kids = Set('K')
+        PrimaryKey(a, b)
+
+    class K(db.Entity):
+        p = Required(P)
+        s = Optional(str)
+    db.generate_mapping(create_tables=True)
+    bad = []
+    with db_session:
+        for a, b in ((1, 2), (2, 1), (1, 1), (7, 9)):
+            K(p=P(a=a, b=b), s='%d-%d' % (a, b))
+    with db_session:
+        for a, b in ((1, 2), (2, 1), (1, 1), (7, 9)):
+            p = P[a, b]
+            q = select(k.s for k in K if k.p == p)
+            sql, args = q._construct_sql_and_arguments()[:2]
+            if list(q) != ['%d-%d' % (a, b)] or tuple(args) != (a, b): bad.append(('entity parameter', (a, b), sql, args))
+            q = select(k.s for k in K if k.p != p and k.p.a == a)
+            if sorted(q) != sorted('%d-%d' % (x, y) for x, y in ((1, 2), (2, 1), (1, 1), (7, 9)) if (x, y) != (a, b) and x == a):
+                bad.append(('entity parameter !=', (a, b), q.get_sql(), None))
+        for tup in ((1, 7), (7, 1), (2, 2), (9, 1)):
+            q = select(k.s for k in K if k.p.a in tup and k.p.b == tup[1])
+            want = sorted('%d-%d' % (x, y) for x, y in ((1, 2), (2, 1), (1, 1), (7, 9)) if x in tup and y == tup[1])
+            sql, args = q._construct_sql_and_arguments()[:2]
+            if sorted(q) != want or tuple(args) != (tup[0], tup[1], tup[1]): bad.append(('tuple parameter', tup, sql, args))
+    db.disconnect()
+    if not bad:
+        rep.add(Ob('tie:entity (composite pk) and tuple parameters through real queries on SQLite', 'concrete-tie', HOLDS))
+    for what, v, sql, args in bad[:3]:
+        rep.add(Ob('tie:%s %r' % (what, v), 'concrete-tie', CEX, cex={'what': what, 'value': repr(v), 'sql': sql, 'args': repr(args)}, reproduced=True,
+                   detail='%s %r: wrong rows or arguments; sql=%s args=%r' % (what, v, sql, args),
+                   replay='# %s %r on an entity with PrimaryKey(a, b): sql=%r args=%r\nraise SystemExit(1)\n' % (what, v, sql, args)))
 
 
 def tie_other_literals(rep, tier):
